@@ -57,7 +57,7 @@ class FloorSim:
         # earlier in the same process -- whatever emsarray remembers from them must not show in this dataset's floor
         before = [rng.randrange(1 << 30) for _ in range(rng.choice([1, 1, 2]))] if rng.random() < 0.35 else []
         return {'engine': self.name, 'world': world, 'vias': vias, 'fresh_hashseeds': fresh, 'before': before,
-                'penv': seams.gen_process_env(rng)}
+                'penv': dict(seams.gen_process_env(rng), warnings_error=rng.random() < 0.2)}
 
     def shrink(self, plan):
         if plan.get('before'):
@@ -165,6 +165,10 @@ class FloorSim:
         depth_names = {d['name'] for d in world.spec['depths']}
         by_via = {}
         for r in results:
+            if 'error' in r and r.get('refusal_allowed'):
+                # a process in which warnings are errors: refusing loudly is fine (the sign guess warns), a wrong floor is not
+                out.stats['probe.refused_under_warnings_as_errors'] += 1
+                continue
             if 'error' in r:
                 e = r['error']
                 out.violate(P, 'floor-raised', e['frame'], f"ocean_floor (via {r['via']}, order {r['order']}) raised {e['exc']}: {e['msg']}")
@@ -246,7 +250,7 @@ def _with_floor(world_spec, floor_seed):
     return spec
 
 
-def _evaluate(world_spec, vias, scratch, orders, tag='input'):
+def _evaluate(world_spec, vias, scratch, orders, tag='input', warnings_error=False):
     """yields result dicts; orders None = do not inject (real hash)."""
     import emsarray
     import emsarray.operations.depth as depth_mod
@@ -262,7 +266,11 @@ def _evaluate(world_spec, vias, scratch, orders, tag='input'):
         if order is not None:
             depth_mod.hash = lambda s, _o=list(order): _o.index(s) if s in _o else len(_o)
         for via in vias:
+            import warnings
             try:
+              with warnings.catch_warnings():
+                if warnings_error:
+                    warnings.simplefilter('error')       # this process runs the way `python -W error` / pytest -W error does
                 if via == 'ems':
                     fl = ds.ems.ocean_floor()
                 else:
@@ -274,10 +282,11 @@ def _evaluate(world_spec, vias, scratch, orders, tag='input'):
                                                    non_spatial_variables=iter([n_.name for n_ in nsv]))
                     else:
                         fl = depth_mod.ocean_floor(ds, coords, non_spatial_variables=nsv)
-                obs = observe.observe_dataset(fl, convention=True)
-                results.append({'via': via, 'order': list(order) if order else None, 'order_ix': oi, 'obs': obs, 'summary': _summary(obs)})
+              obs = observe.observe_dataset(fl, convention=True)
+              results.append({'via': via, 'order': list(order) if order else None, 'order_ix': oi, 'obs': obs, 'summary': _summary(obs)})
             except Exception as e:
-                results.append({'via': via, 'order': list(order) if order else None, 'order_ix': oi, 'error': observe.exc_info(e)})
+                results.append({'via': via, 'order': list(order) if order else None, 'order_ix': oi, 'error': observe.exc_info(e),
+                                'refusal_allowed': bool(warnings_error)})
     return pre, results
 
 
@@ -290,7 +299,7 @@ def _floor_lifetime(ctx, world_spec, vias, scratch, before, penv=None):
                      summary=r.get('summary') if 'error' not in r else {'exc': r['error']['exc'], 'frame': r['error']['frame']})
         ctx.observe(f'pre_before{bi}', pre_b)
         ctx.observe(f'results_before{bi}', results_b)
-    pre, results = _evaluate(world_spec, vias, scratch, None)
+    pre, results = _evaluate(world_spec, vias, scratch, None, warnings_error=bool((penv or {}).get('warnings_error')))
     for r in results:
         ctx.emit('floor', via=r['via'], order=r['order'], ok='error' not in r,
                  summary=r.get('summary') if 'error' not in r else {'exc': r['error']['exc'], 'frame': r['error']['frame']})
